@@ -296,4 +296,958 @@ theorem mem_contribs (vts : List TypeDef) (is : List Name) (c : Name × Name) :
     exact ⟨pf, hpf, by rw [hn]⟩
 
 
+/-! ### Inserting the origins of a type's own fields -/
+
+/-- The origin stored for field `f` of `tname`. -/
+def originFor (tname : Name) (inherited : Map Name Origin) (f : Field) : Origin :=
+  (Map.get? f.name inherited).getD (.single tname)
+
+theorem insertOrigins_spec (tname : Name) (inherited : Map Name Origin) (fs : List Field) :
+    ∀ (origins : Origins), (fs.map (·.name)).Nodup →
+    (∀ f ∈ fs, Map.get? (tname, f.name) origins = none) →
+    ∃ origins', insertOrigins tname inherited origins fs = .ok origins' ∧
+      (∀ f ∈ fs, Map.get? (tname, f.name) origins' = some (originFor tname inherited f)) ∧
+      (∀ k, (∀ f ∈ fs, k ≠ (tname, f.name)) → Map.get? k origins' = Map.get? k origins) ∧
+      (∀ e ∈ origins', e ∈ origins ∨ ∃ f ∈ fs, e = ((tname, f.name), originFor tname inherited f)) := by
+  induction fs with
+  | nil => intro origins _ _; exact ⟨origins, rfl, by simp, by simp, by simp⟩
+  | cons f fs ih =>
+    intro origins hnd hnone
+    simp only [List.map_cons, List.nodup_cons, List.mem_map, not_exists, not_and] at hnd
+    have hf := hnone f (by simp)
+    let o1 := Map.insert pairLt (tname, f.name) (originFor tname inherited f) origins
+    have hnone1 : ∀ g ∈ fs, Map.get? (tname, g.name) o1 = none := by
+      intro g hg
+      have hne : g.name ≠ f.name := fun h => hnd.1 g hg h
+      have : (tname, g.name) ≠ (tname, f.name) := fun h => hne (by simpa using h)
+      simp only [o1, Map.get?_insert, this, if_false]
+      exact hnone g (by simp [hg])
+    obtain ⟨o2, h1, h2, h3, h4⟩ := ih o1 hnd.2 hnone1
+    refine ⟨o2, ?_, ?_, ?_, ?_⟩
+    · simp only [insertOrigins, Map.contains, hf, Option.isSome_none, Bool.false_eq_true, if_false]
+      exact h1
+    · intro g hg
+      rcases List.mem_cons.mp hg with rfl | hg
+      · by_cases hin : ∃ x ∈ fs, (tname, g.name) = (tname, x.name)
+        · obtain ⟨x, hx, hxe⟩ := hin
+          exact absurd (by simpa using hxe : g.name = x.name).symm (hnd.1 x hx)
+        · rw [h3 _ (fun x hx h => hin ⟨x, hx, h⟩)]
+          simp [o1, Map.get?_insert]
+      · exact h2 g hg
+    · intro k hk
+      rw [h3 k (fun x hx => hk x (by simp [hx]))]
+      have := hk f (by simp)
+      simp [o1, Map.get?_insert, this]
+    · intro e he
+      rcases h4 e he with he | ⟨x, hx, hxe⟩
+      · rcases Map.mem_insert _ _ _ _ _ he with he | he
+        · exact .inr ⟨f, by simp, he⟩
+        · exact .inl he
+      · exact .inr ⟨x, by simp [hx], hxe⟩
+
+
+/-! ### Sorted sets have no duplicates -/
+
+theorem Set.insert_sorted {κ : Type} [DecidableEq κ] {lt : κ → κ → Bool} (hlt : StrictTotal lt)
+    (x : κ) (l : List κ) (hs : l.Pairwise (fun a b => lt a b = true)) :
+    (Set.insert lt x l).Pairwise (fun a b => lt a b = true) := by
+  induction l with
+  | nil => simp [Set.insert]
+  | cons y ys ih =>
+    rw [List.pairwise_cons] at hs
+    unfold Set.insert
+    split
+    · rename_i hxy
+      rw [List.pairwise_cons]
+      refine ⟨?_, List.pairwise_cons.mpr hs⟩
+      intro z hz
+      rcases List.mem_cons.mp hz with rfl | hz
+      · exact hxy
+      · exact hlt.trans _ _ _ hxy (hs.1 z hz)
+    · split
+      · exact List.pairwise_cons.mpr hs
+      · rename_i hxy hne
+        rw [List.pairwise_cons]
+        refine ⟨?_, ih hs.2⟩
+        intro z hz
+        rcases (Set.mem_insert lt x z ys).mp hz with rfl | hz
+        · exact hlt.tri _ _ (by simpa using hxy) hne
+        · exact hs.1 z hz
+
+theorem Set.ofList_sorted {κ : Type} [DecidableEq κ] {lt : κ → κ → Bool} (hlt : StrictTotal lt)
+    (l : List κ) : (Set.ofList lt l).Pairwise (fun a b => lt a b = true) := by
+  unfold Set.ofList
+  suffices h : ∀ acc : List κ, acc.Pairwise (fun a b => lt a b = true) →
+      (l.foldl (fun acc x => Set.insert lt x acc) acc).Pairwise (fun a b => lt a b = true) from
+    h [] List.Pairwise.nil
+  induction l with
+  | nil => intro acc h; exact h
+  | cons x xs ih => intro acc h; exact ih _ (Set.insert_sorted hlt x acc h)
+
+theorem nodup_nameSet (l : List Name) : (nameSet l).Nodup := by
+  have := Set.ofList_sorted nameLt_strictTotal l
+  refine List.Pairwise.imp ?_ this
+  intro a b hab heq
+  subst heq
+  simp [nameLt_strictTotal.irrefl] at hab
+
+/-! ### The `implements` graph -/
+
+theorem mem_resolutionsOf (vts : List TypeDef) (t : TypeDef) (x : Name) :
+    x ∈ resolutionsOf vts t ↔ x ∈ t.implements ∧ IsVertex vts x := by
+  simp [resolutionsOf, mem_nameSet, findType_isSome_iff]
+
+theorem mem_implementersOf (vts : List TypeDef) (x n : Name) :
+    n ∈ implementersOf vts x ↔ ∃ t ∈ vts, t.name = n ∧ x ∈ t.implements := by
+  simp only [implementersOf, mem_nameSet, List.mem_map, List.mem_filter, mem_sortByName,
+    List.contains_eq_mem, decide_eq_true_eq]
+  constructor
+  · rintro ⟨t, ⟨ht, hx⟩, hn⟩; exact ⟨t, ht, hn, hx⟩
+  · rintro ⟨t, ht, hn, hx⟩; exact ⟨t, ⟨ht, hx⟩, hn⟩
+
+theorem nodup_implementersOf (vts : List TypeDef) (x : Name) : (implementersOf vts x).Nodup :=
+  nodup_nameSet _
+
+/-- With distinct names, the definition named `t.name` is `t`. -/
+theorem eq_of_name_eq {vts : List TypeDef} (hnd : (vts.map (·.name)).Nodup) {a b : TypeDef}
+    (ha : a ∈ vts) (hb : b ∈ vts) (h : a.name = b.name) : a = b := by
+  have h1 := findType_of_mem hnd ha
+  have h2 := findType_of_mem hnd hb
+  rw [h, h2] at h1
+  exact (Option.some.inj h1).symm
+
+theorem hasField_iff {vts : List TypeDef} (hnd : (vts.map (·.name)).Nodup) {t : TypeDef} (ht : t ∈ vts)
+    (f : Name) : HasField vts t.name f ↔ ∃ x ∈ t.fields, x.name = f := by
+  constructor
+  · rintro ⟨d, hd, hdn, hx⟩
+    rw [eq_of_name_eq hnd hd ht hdn] at hx; exact hx
+  · intro h; exact ⟨t, ht, rfl, h⟩
+
+theorem implStep_iff {vts : List TypeDef} (hnd : (vts.map (·.name)).Nodup) {t : TypeDef} (ht : t ∈ vts)
+    (b : Name) : ImplStep vts t.name b ↔ b ∈ resolutionsOf vts t := by
+  rw [mem_resolutionsOf]
+  constructor
+  · rintro ⟨d, hd, hdn, hb, hv⟩
+    rw [eq_of_name_eq hnd hd ht hdn] at hb; exact ⟨hb, hv⟩
+  · rintro ⟨hb, hv⟩; exact ⟨t, ht, rfl, hb, hv⟩
+
+/-- The origin computed for an own field is right, given the merged origins of the parents. -/
+theorem originFor_spec {vts : List TypeDef} (hnd : (vts.map (·.name)).Nodup) {t : TypeDef} (ht : t ∈ vts)
+    {inherited : Map Name Origin} (hacc : AccSpec vts (contribs vts t.implements) inherited)
+    {f : Field} (hf : f ∈ t.fields) :
+    OriginSpec vts (originFor t.name inherited f) t.name f.name := by
+  have hHas : HasField vts t.name f.name := ⟨t, ht, rfl, f, hf, rfl⟩
+  have hcontrib : ∀ c : Name × Name, c ∈ contribs vts t.implements ↔
+      c.1 ∈ t.implements ∧ HasField vts c.1 c.2 := by
+    intro c
+    rw [mem_contribs]
+    constructor
+    · rintro ⟨hi, d, hft, pf, hpf, hn⟩
+      exact ⟨hi, d, (findType_some hft).1, (findType_some hft).2, pf, hpf, hn⟩
+    · rintro ⟨hi, d, hd, hdn, pf, hpf, hn⟩
+      exact ⟨hi, d, by rw [← hdn]; exact findType_of_mem hnd hd, pf, hpf, hn⟩
+  unfold originFor
+  rcases hacc f.name with ⟨hnone, hC⟩ | ⟨o, hsome, hwf, hex, hmem⟩
+  · simp only [hnone, Option.getD_none]
+    refine ⟨trivial, ?_⟩
+    intro a
+    simp only [Origin.toList, List.mem_singleton]
+    have hno : ∀ i ∈ t.implements, ¬ HasField vts i f.name := by
+      intro i hi hh
+      exact hC (i, f.name) ((hcontrib _).mpr ⟨hi, hh⟩) rfl
+    constructor
+    · rintro rfl
+      refine .self hHas ?_
+      intro d hd hdn i hi
+      rw [eq_of_name_eq hnd hd ht hdn] at hi
+      exact hno i hi
+    · intro h
+      cases h with
+      | self _ _ => rfl
+      | inherited _ hex hhas _ =>
+        obtain ⟨d, hd, hdn, hi⟩ := hex
+        rw [eq_of_name_eq hnd hd ht hdn] at hi
+        exact absurd hhas (hno _ hi)
+  · simp only [hsome, Option.getD_some]
+    refine ⟨hwf, ?_⟩
+    intro a
+    rw [hmem]
+    constructor
+    · rintro ⟨c, hc, hc2, hco⟩
+      have := (hcontrib c).mp hc
+      rw [hc2] at this
+      exact .inherited hHas ⟨t, ht, rfl, this.1⟩ this.2 hco
+    · intro h
+      cases h with
+      | self _ hno =>
+        obtain ⟨c, hc, hc2⟩ := hex
+        have := (hcontrib c).mp hc
+        rw [hc2] at this
+        exact absurd this.2 (hno t ht rfl c.1 this.1)
+      | @inherited _ _ i _ _ hex' hhas ho =>
+        obtain ⟨d, hd, hdn, hi⟩ := hex'
+        rw [eq_of_name_eq hnd hd ht hdn] at hi
+        exact ⟨(i, f.name), (hcontrib _).mpr ⟨hi, hhas⟩, rfl, ho⟩
+
+
+/-! ### The loop invariant of `get_field_origins` -/
+
+/-- `P` is the list of types dequeued so far. -/
+structure KInv (vts : List TypeDef) (P : List Name) (st : KState) : Prop where
+  nodupP : P.Nodup
+  nodupQ : st.queue.Nodup
+  disj : ∀ n ∈ P, n ∉ st.queue
+  subP : ∀ n ∈ P, IsVertex vts n
+  subQ : ∀ n ∈ st.queue, IsVertex vts n
+  keys : Map.keys st.remaining = (sortByName vts).map (·.name)
+  rem : ∀ t ∈ vts, ∀ r, Map.get? t.name st.remaining = some r →
+    ∀ x, x ∈ r ↔ (x ∈ resolutionsOf vts t ∧ x ∉ P)
+  ready : ∀ t ∈ vts, (t.name ∈ P ∨ t.name ∈ st.queue) ↔ ∀ x ∈ resolutionsOf vts t, x ∈ P
+  acc : ∀ n ∈ P, Acc (fun b a => ImplStep vts a b) n
+  entries : ∀ e ∈ st.origins, e.1.1 ∈ P ∧ OriginSpec vts e.2 e.1.1 e.1.2
+  orig : ∀ t ∈ vts, t.name ∈ P → ∀ f ∈ t.fields,
+    ∃ o, Map.get? (t.name, f.name) st.origins = some o ∧ OriginSpec vts o t.name f.name
+
+theorem mem_keys_remaining {vts : List TypeDef} {P : List Name} {st : KState} (h : KInv vts P st)
+    {t : TypeDef} (ht : t ∈ vts) : t.name ∈ Map.keys st.remaining := by
+  rw [h.keys]; exact List.mem_map.mpr ⟨t, (mem_sortByName _ _).mpr ht, rfl⟩
+
+theorem get?_remaining {vts : List TypeDef} {P : List Name} {st : KState} (h : KInv vts P st)
+    {t : TypeDef} (ht : t ∈ vts) : ∃ r, Map.get? t.name st.remaining = some r :=
+  Option.isSome_iff_exists.mp ((Map.get?_isSome_iff_mem_keys _ _).mpr (mem_keys_remaining h ht))
+
+theorem kStep_spec {vts : List TypeDef} (hd : Distinct vts) {P : List Name} {st : KState}
+    (h : KInv vts P st) {tname : Name} {rest : List Name} (hq : st.queue = tname :: rest) :
+    ∃ st', kStep vts st tname rest = .ok st' ∧ KInv vts (P ++ [tname]) st' := by
+  have hnd := hd.1
+  have htq : tname ∈ st.queue := by rw [hq]; simp
+  obtain ⟨t, ht, htn⟩ := h.subQ tname htq
+  subst htn
+  have hft : findType vts t.name = some t := findType_of_mem hnd ht
+  have htP : t.name ∉ P := fun hp => h.disj _ hp htq
+  have hres : ∀ x ∈ resolutionsOf vts t, x ∈ P := (h.ready t ht).mp (.inr htq)
+  have hqnd : t.name ∉ rest ∧ rest.Nodup := by
+    have := h.nodupQ; rw [hq, List.nodup_cons] at this; exact this
+  -- inherited origins
+  obtain ⟨inherited, hinh, hacc⟩ := implementedFields_spec (vts := vts) (origins := st.origins)
+    t.implements [] [] (by
+      intro i hi d hfd pf hpf
+      have hdv := findType_some hfd
+      have : i ∈ P := hres i ((mem_resolutionsOf _ _ _).mpr ⟨hi, d, hdv.1, hdv.2⟩)
+      have := h.orig d hdv.1 (hdv.2 ▸ this) pf hpf
+      rwa [hdv.2] at this) (by intro f; exact .inl ⟨rfl, by simp⟩)
+  simp only [List.nil_append] at hacc
+  -- own fields
+  obtain ⟨origins', hins, hnew, hold, hmem⟩ := insertOrigins_spec t.name inherited t.fields st.origins
+    (hd.2 t ht) (by
+      intro f _
+      cases hg : Map.get? (t.name, f.name) st.origins with
+      | none => rfl
+      | some o => exact absurd (h.entries _ (Map.mem_of_get? hg)).1 htP)
+  -- implementers
+  obtain ⟨R', hres', hkeys', hget'⟩ := resolveAll_spec t.name (implementersOf vts t.name) st.remaining rest
+    (nodup_implementersOf _ _) (by
+      intro n hn
+      obtain ⟨t', ht', htn', _⟩ := (mem_implementersOf _ _ _).mp hn
+      rw [← htn']; exact mem_keys_remaining h ht')
+  refine ⟨{ origins := origins', remaining := R',
+            queue := rest ++ (implementersOf vts t.name).filter (becomesReady t.name st.remaining) },
+    by simp only [kStep, hft, hinh, hins, hres'], ?_⟩
+  -- facts about newly ready types
+  have hready : ∀ n, becomesReady t.name st.remaining n = true → n ∈ implementersOf vts t.name →
+      ∃ t' ∈ vts, t'.name = n ∧ t.name ∈ resolutionsOf vts t' ∧
+        (∀ x ∈ resolutionsOf vts t', x ∈ P ∨ x = t.name) := by
+    intro n hb hn
+    obtain ⟨t', ht', htn', _⟩ := (mem_implementersOf _ _ _).mp hn
+    obtain ⟨r, hr⟩ := get?_remaining h ht'
+    rw [htn'] at hr
+    simp only [becomesReady, hr, Bool.and_eq_true, List.contains_eq_mem, decide_eq_true_eq,
+      List.isEmpty_iff, List.filter_eq_nil_iff] at hb
+    have hrem := h.rem t' ht' r (htn' ▸ hr)
+    refine ⟨t', ht', htn', ((hrem _).mp hb.1).1, ?_⟩
+    intro x hx
+    by_cases hxP : x ∈ P
+    · exact .inl hxP
+    · have := hb.2 x ((hrem x).mpr ⟨hx, hxP⟩)
+      exact .inr (by simpa using this)
+  have hnotold : ∀ n, becomesReady t.name st.remaining n = true → n ∈ implementersOf vts t.name →
+      n ∉ P ∧ n ∉ st.queue := by
+    intro n hb hn
+    obtain ⟨t', ht', htn', hin, _⟩ := hready n hb hn
+    have : ¬ (t'.name ∈ P ∨ t'.name ∈ st.queue) := by
+      rw [h.ready t' ht']
+      intro hall; exact htP (hall _ hin)
+    rw [htn'] at this
+    exact ⟨fun h1 => this (.inl h1), fun h2 => this (.inr h2)⟩
+  constructor
+  · -- nodupP
+    rw [List.nodup_append]
+    exact ⟨h.nodupP, by simp, by intro a ha b hb; simp at hb; subst hb; exact fun hab => htP (hab ▸ ha)⟩
+  · -- nodupQ
+    show (rest ++ (implementersOf vts t.name).filter (becomesReady t.name st.remaining)).Nodup
+    rw [List.nodup_append]
+    refine ⟨hqnd.2, (nodup_implementersOf _ _).filter _, ?_⟩
+    intro a ha b hb hab
+    subst hab
+    rw [List.mem_filter] at hb
+    exact (hnotold a hb.2 hb.1).2 (by rw [hq]; simp [ha])
+  · -- disj
+    intro n hn
+    show n ∉ rest ++ (implementersOf vts t.name).filter (becomesReady t.name st.remaining)
+    rw [List.mem_append, List.mem_filter]
+    rintro (hr | ⟨h1, h2⟩)
+    · rcases List.mem_append.mp hn with hn | hn
+      · exact h.disj n hn (by rw [hq]; simp [hr])
+      · simp at hn; subst hn; exact hqnd.1 hr
+    · rcases List.mem_append.mp hn with hn | hn
+      · exact (hnotold n h2 h1).1 hn
+      · simp at hn; subst hn; exact (hnotold _ h2 h1).2 htq
+  · -- subP
+    intro n hn
+    rcases List.mem_append.mp hn with hn | hn
+    · exact h.subP n hn
+    · simp at hn; subst hn; exact ⟨t, ht, rfl⟩
+  · -- subQ
+    intro n hn
+    change n ∈ rest ++ (implementersOf vts t.name).filter (becomesReady t.name st.remaining) at hn
+    rcases List.mem_append.mp hn with hn | hn
+    · exact h.subQ n (by rw [hq]; simp [hn])
+    · obtain ⟨t', ht', htn', _⟩ := (mem_implementersOf _ _ _).mp (List.mem_filter.mp hn).1
+      exact ⟨t', ht', htn'⟩
+  · -- keys
+    exact hkeys'.trans h.keys
+  · -- rem
+    intro t' ht' r hr x
+    change Map.get? t'.name R' = some r at hr
+    rw [hget'] at hr
+    obtain ⟨r0, hr0⟩ := get?_remaining h ht'
+    have hrem := h.rem t' ht' r0 hr0
+    by_cases hin : t'.name ∈ implementersOf vts t.name
+    · simp only [hin, if_true, hr0, Option.map_some, Option.some.injEq] at hr
+      subst hr
+      simp only [List.mem_filter, hrem, bne_iff_ne, ne_eq, List.mem_append, List.mem_singleton, not_or]
+      grind
+    · simp only [hin, if_false, hr0, Option.some.injEq] at hr
+      subst hr
+      rw [hrem]
+      have : x ∈ resolutionsOf vts t' → x ≠ t.name := by
+        intro hx hxe
+        exact hin ((mem_implementersOf _ _ _).mpr ⟨t', ht', rfl, hxe ▸ ((mem_resolutionsOf _ _ _).mp hx).1⟩)
+      simp only [List.mem_append, List.mem_singleton, not_or]
+      grind
+  · -- ready
+    intro t' ht'
+    show (t'.name ∈ P ++ [t.name] ∨
+      t'.name ∈ rest ++ (implementersOf vts t.name).filter (becomesReady t.name st.remaining)) ↔ _
+    constructor
+    · rintro (hp | hq')
+      · rcases List.mem_append.mp hp with hp | hp
+        · intro x hx; exact List.mem_append_left _ ((h.ready t' ht').mp (.inl hp) x hx)
+        · simp at hp
+          have : t' = t := eq_of_name_eq hnd ht' ht hp
+          subst this
+          intro x hx; exact List.mem_append_left _ (hres x hx)
+      · rcases List.mem_append.mp hq' with hq' | hq'
+        · intro x hx
+          exact List.mem_append_left _ ((h.ready t' ht').mp (.inr (by rw [hq]; simp [hq'])) x hx)
+        · rw [List.mem_filter] at hq'
+          obtain ⟨t'', ht'', htn'', _, hall⟩ := hready _ hq'.2 hq'.1
+          have : t'' = t' := eq_of_name_eq hnd ht'' ht' htn''
+          subst this
+          intro x hx
+          rcases hall x hx with hxp | hxe
+          · exact List.mem_append_left _ hxp
+          · simp [hxe]
+    · intro hall
+      by_cases hold' : ∀ x ∈ resolutionsOf vts t', x ∈ P
+      · rcases (h.ready t' ht').mpr hold' with hp | hq'
+        · exact .inl (List.mem_append_left _ hp)
+        · rw [hq] at hq'
+          rcases List.mem_cons.mp hq' with hq' | hq'
+          · exact .inl (by simp [hq'])
+          · exact .inr (List.mem_append_left _ hq')
+      · -- some resolution is not in P: it must be t.name, and t' becomes ready
+        have hex : ∃ x ∈ resolutionsOf vts t', x ∉ P := by
+          apply Classical.byContradiction
+          intro hne
+          apply hold'
+          intro x hx
+          apply Classical.byContradiction
+          intro hxP
+          exact hne ⟨x, hx, hxP⟩
+        obtain ⟨x, hx, hxP⟩ := hex
+        have hxe : x = t.name := by
+          have := hall x hx
+          rcases List.mem_append.mp this with h1 | h1
+          · exact absurd h1 hxP
+          · simpa using h1
+        subst hxe
+        have himp : t'.name ∈ implementersOf vts t.name :=
+          (mem_implementersOf _ _ _).mpr ⟨t', ht', rfl, ((mem_resolutionsOf _ _ _).mp hx).1⟩
+        obtain ⟨r0, hr0⟩ := get?_remaining h ht'
+        have hrem := h.rem t' ht' r0 hr0
+        refine .inr (List.mem_append_right _ (List.mem_filter.mpr ⟨himp, ?_⟩))
+        simp only [becomesReady, hr0, Bool.and_eq_true, List.contains_eq_mem, decide_eq_true_eq,
+          List.isEmpty_iff, List.filter_eq_nil_iff]
+        refine ⟨(hrem _).mpr ⟨hx, hxP⟩, ?_⟩
+        intro y hy
+        have hy' := (hrem y).mp hy
+        have := hall y hy'.1
+        rcases List.mem_append.mp this with h1 | h1
+        · exact absurd h1 hy'.2
+        · simp at h1; simp [h1]
+  · -- acc
+    intro n hn
+    rcases List.mem_append.mp hn with hn | hn
+    · exact h.acc n hn
+    · simp at hn; subst hn
+      constructor
+      intro b hb
+      exact h.acc b (hres b ((implStep_iff hnd ht b).mp hb))
+  · -- entries
+    intro e he
+    rcases hmem e he with he | ⟨f, hf, rfl⟩
+    · exact ⟨List.mem_append_left _ (h.entries e he).1, (h.entries e he).2⟩
+    · exact ⟨by simp, originFor_spec hnd ht hacc hf⟩
+  · -- orig
+    intro t' ht' hp f hf
+    rcases List.mem_append.mp hp with hp | hp
+    · obtain ⟨o, ho, hspec⟩ := h.orig t' ht' hp f hf
+      refine ⟨o, ?_, hspec⟩
+      show Map.get? (t'.name, f.name) origins' = some o
+      rw [hold _ (by
+        intro g _ heq
+        have : t'.name = t.name := by simpa using congrArg Prod.fst heq
+        exact htP (this ▸ hp))]
+      exact ho
+    · simp at hp
+      have : t' = t := eq_of_name_eq hnd ht' ht hp
+      subst this
+      exact ⟨_, hnew f hf, originFor_spec hnd ht' hacc hf⟩
+
+
+/-! ### Termination within the fuel -/
+
+theorem length_le_of_nodup_subset {α : Type} [DecidableEq α] (l : List α) :
+    ∀ (m : List α), l.Nodup → (∀ x ∈ l, x ∈ m) → l.length ≤ m.length := by
+  induction l with
+  | nil => intro m _ _; simp
+  | cons x xs ih =>
+    intro m hnd hsub
+    rw [List.nodup_cons] at hnd
+    have hx : x ∈ m := hsub x (by simp)
+    have := ih (m.erase x) hnd.2 (by
+      intro y hy
+      have hne : y ≠ x := fun h => hnd.1 (h ▸ hy)
+      exact (List.mem_erase_of_ne hne).mpr (hsub y (by simp [hy])))
+    rw [List.length_erase_of_mem hx] at this
+    have hpos : 0 < m.length := List.length_pos_of_mem hx
+    simp only [List.length_cons]; omega
+
+theorem get?_map_of_mem {ν : Type} (g : TypeDef → ν) (l : List TypeDef) (hnd : (l.map (·.name)).Nodup)
+    {t : TypeDef} (ht : t ∈ l) : Map.get? t.name (l.map (fun t => (t.name, g t))) = some (g t) := by
+  induction l with
+  | nil => simp at ht
+  | cons y ys ih =>
+    simp only [List.map_cons, List.nodup_cons, List.mem_map, not_exists, not_and] at hnd
+    simp only [List.map_cons, Map.get?]
+    rcases List.mem_cons.mp ht with rfl | ht'
+    · simp
+    · have hne : t.name ≠ y.name := fun h => hnd.1 t ht' h
+      simp only [hne, if_false]
+      exact ih hnd.2 ht'
+
+theorem nodup_sorted_names {vts : List TypeDef} (hnd : (vts.map (·.name)).Nodup) :
+    ((sortByName vts).map (·.name)).Nodup :=
+  ((sortByName_perm vts).map _).nodup_iff.mpr hnd
+
+theorem kInit_inv {vts : List TypeDef} (hd : Distinct vts) : KInv vts [] (kInit vts) := by
+  have hnd := hd.1
+  have hsnd := nodup_sorted_names hnd
+  constructor
+  · exact List.nodup_nil
+  · exact List.Nodup.sublist (List.Sublist.map _ List.filter_sublist) hsnd
+  · simp
+  · simp
+  · intro n hn
+    simp only [kInit, List.mem_map, List.mem_filter, mem_sortByName] at hn
+    obtain ⟨t, ⟨ht, _⟩, rfl⟩ := hn
+    exact ⟨t, ht, rfl⟩
+  · simp [kInit, Map.keys, List.map_map, Function.comp_def]
+  · intro t ht r hr x
+    have := get?_map_of_mem (resolutionsOf vts) (sortByName vts) hsnd ((mem_sortByName _ _).mpr ht)
+    simp only [kInit] at hr
+    rw [this] at hr
+    cases hr; simp
+  · intro t ht
+    simp only [kInit, List.not_mem_nil, false_or, List.mem_map, List.mem_filter, mem_sortByName]
+    constructor
+    · rintro ⟨t', ⟨ht', he⟩, hn⟩
+      have : t' = t := eq_of_name_eq hnd ht' ht hn
+      subst this
+      intro x hx
+      simp only [List.isEmpty_iff] at he
+      rw [he] at hx; simp at hx
+    · intro hall
+      refine ⟨t, ⟨ht, ?_⟩, rfl⟩
+      simp only [List.isEmpty_iff]
+      cases hres : resolutionsOf vts t with
+      | nil => rfl
+      | cons x xs => exact absurd (hall x (by simp [hres])) (by simp)
+  · simp
+  · simp [kInit]
+  · simp
+
+theorem kLoop_spec {vts : List TypeDef} (hd : Distinct vts) : ∀ (fuel : Nat) (P : List Name) (st : KState),
+    KInv vts P st → vts.length ≤ fuel + P.length →
+    ∃ P' st', kLoop vts fuel st = .ok st' ∧ KInv vts P' st' ∧ st'.queue = [] := by
+  intro fuel
+  induction fuel with
+  | zero =>
+    intro P st h hlen
+    cases hq : st.queue with
+    | nil => exact ⟨P, st, by simp [kLoop, hq], h, hq⟩
+    | cons tname rest =>
+      -- impossible: P ++ [tname] would be longer than the list of names
+      exfalso
+      have htq : tname ∈ st.queue := by rw [hq]; simp
+      have hnotP : tname ∉ P := fun hp => h.disj _ hp htq
+      have hnd' : (P ++ [tname]).Nodup := by
+        rw [List.nodup_append]
+        exact ⟨h.nodupP, by simp, by intro a ha b hb; simp at hb; subst hb; exact fun hab => hnotP (hab ▸ ha)⟩
+      have := length_le_of_nodup_subset (P ++ [tname]) (vts.map (·.name)) hnd' (by
+        intro x hx
+        rcases List.mem_append.mp hx with hx | hx
+        · obtain ⟨t, ht, hn⟩ := h.subP x hx; exact List.mem_map.mpr ⟨t, ht, hn⟩
+        · simp at hx; subst hx
+          obtain ⟨t, ht, hn⟩ := h.subQ _ htq; exact List.mem_map.mpr ⟨t, ht, hn⟩)
+      simp at this; omega
+  | succ fuel ih =>
+    intro P st h hlen
+    cases hq : st.queue with
+    | nil => exact ⟨P, st, by simp [kLoop, hq], h, hq⟩
+    | cons tname rest =>
+      obtain ⟨st', hstep, hinv⟩ := kStep_spec hd h hq
+      obtain ⟨P', st'', hloop, hinv', hq'⟩ := ih (P ++ [tname]) st' hinv (by simp; omega)
+      exact ⟨P', st'', by simp [kLoop, hq, hstep, hloop], hinv', hq'⟩
+
+
+/-! ### Cycles -/
+
+theorem TransGen.trans {α : Type} {r : α → α → Prop} {a b c : α} (h1 : TransGen r a b) (h2 : TransGen r b c) :
+    TransGen r a c := by
+  induction h2 with
+  | single h => exact .tail h1 h
+  | tail _ h ih => exact .tail ih h
+
+theorem TransGen.head_cases {α : Type} {r : α → α → Prop} {a c : α} (h : TransGen r a c) :
+    ∃ b, r a b ∧ (b = c ∨ TransGen r b c) := by
+  induction h with
+  | single h => exact ⟨_, h, .inl rfl⟩
+  | tail _ hr ih =>
+    obtain ⟨b, hab, hb⟩ := ih
+    rcases hb with rfl | hb
+    · exact ⟨_, hab, .inr (.single hr)⟩
+    · exact ⟨b, hab, .inr (.tail hb hr)⟩
+
+theorem TransGen.lift {α : Type} {r r' : α → α → Prop} (hsub : ∀ a b, r' a b → TransGen r a b) {a b : α}
+    (h : TransGen r' a b) : TransGen r a b := by
+  induction h with
+  | single h => exact hsub _ _ h
+  | tail _ h ih => exact ih.trans (hsub _ _ h)
+
+/-- An accessible element (every descending chain of `r`-successors is finite) is on no cycle. -/
+theorem not_transGen_of_acc {α : Type} {r : α → α → Prop} {a : α} (h : Acc (fun b a => r a b) a) :
+    ¬ TransGen r a a := by
+  induction h with
+  | intro a _ ih =>
+    intro hc
+    obtain ⟨b, hab, hb⟩ := hc.head_cases
+    rcases hb with rfl | hb
+    · exact ih _ hab hc
+    · exact ih b hab (.tail hb hab)
+
+/-- A non-empty finite set in which every element has a successor inside the set contains a cycle. -/
+theorem exists_cycle {α : Type} [DecidableEq α] : ∀ (n : Nat) (r : α → α → Prop) (U : List α),
+    U.length ≤ n → U ≠ [] → (∀ u ∈ U, ∃ x ∈ U, r u x) → ∃ u, TransGen r u u := by
+  intro n
+  induction n with
+  | zero => intro r U hlen hne _; cases U <;> simp_all
+  | succ n ih =>
+    intro r U hlen hne hsucc
+    cases U with
+    | nil => exact absurd rfl hne
+    | cons u0 U0 =>
+      obtain ⟨x0, hx0, hr0⟩ := hsucc u0 (by simp)
+      by_cases hx0e : x0 = u0
+      · subst hx0e; exact ⟨_, .single hr0⟩
+      · let U' := (u0 :: U0).filter (fun x => x != u0)
+        have hmemU' : ∀ x, x ∈ U' ↔ x ∈ (u0 :: U0) ∧ x ≠ u0 := by
+          intro x; simp only [U', List.mem_filter, bne_iff_ne, ne_eq]
+        have hlen' : U'.length ≤ n := by
+          have h1 : U' = U0.filter (fun x => x != u0) := by simp [U']
+          have h2 := List.length_filter_le (fun x => x != u0) U0
+          rw [h1]; simp only [List.length_cons] at hlen; omega
+        have hx0' : x0 ∈ U' := (hmemU' x0).mpr ⟨hx0, hx0e⟩
+        let r' : α → α → Prop := fun a b => r a b ∨ (r a u0 ∧ r u0 b)
+        have hsucc' : ∀ u ∈ U', ∃ x ∈ U', r' u x := by
+          intro u hu
+          obtain ⟨x, hx, hrx⟩ := hsucc u ((hmemU' u).mp hu).1
+          by_cases hxe : x = u0
+          · subst hxe; exact ⟨x0, hx0', .inr ⟨hrx, hr0⟩⟩
+          · exact ⟨x, (hmemU' x).mpr ⟨hx, hxe⟩, .inl hrx⟩
+        obtain ⟨u, hu⟩ := ih r' U' hlen' (List.ne_nil_of_mem hx0') hsucc'
+        refine ⟨u, TransGen.lift ?_ hu⟩
+        rintro a b (h | ⟨h1, h2⟩)
+        · exact .single h
+        · exact .tail (.single h1) h2
+
+/-! ### The result of `get_field_origins` -/
+
+theorem firstUnresolved_none_iff (m : Map Name (List Name)) :
+    firstUnresolved m = none ↔ ∀ e ∈ m, e.2 = [] := by
+  induction m with
+  | nil => simp [firstUnresolved]
+  | cons e m ih =>
+    obtain ⟨k, r⟩ := e
+    cases r with
+    | nil => simp [firstUnresolved, ih]
+    | cons x xs => simp [firstUnresolved]
+
+theorem Map.get?_of_mem_nodupKeys {κ ν : Type} [DecidableEq κ] {m : Map κ ν} (hnd : (Map.keys m).Nodup)
+    {e : κ × ν} (he : e ∈ m) : Map.get? e.1 m = some e.2 := by
+  induction m with
+  | nil => simp at he
+  | cons x m ih =>
+    obtain ⟨k', v'⟩ := x
+    simp only [Map.keys, List.map_cons, List.nodup_cons, List.mem_map, not_exists, not_and] at hnd
+    rcases List.mem_cons.mp he with rfl | he
+    · simp [Map.get?]
+    · have hne : e.1 ≠ k' := fun h => hnd.1 e he h
+      simp only [Map.get?, hne, if_false]
+      exact ih hnd.2 he
+
+/-- `get_field_origins` does not panic; it returns the cycle error iff the `implements` relation
+between defined types has a cycle; otherwise the origins it returns are right and complete. -/
+theorem getFieldOrigins_spec {vts : List TypeDef} (hd : Distinct vts) :
+    (∃ e, getFieldOrigins vts = .ok (.error e) ∧ ∃ t, TransGen (ImplStep vts) t t) ∨
+    (∃ origins, getFieldOrigins vts = .ok (.ok origins) ∧ (∀ t, ¬ TransGen (ImplStep vts) t t) ∧
+      (∀ e ∈ origins, OriginSpec vts e.2 e.1.1 e.1.2) ∧
+      (∀ t ∈ vts, ∀ f ∈ t.fields, ∃ o, Map.get? (t.name, f.name) origins = some o ∧
+        OriginSpec vts o t.name f.name)) := by
+  have hnd := hd.1
+  obtain ⟨P, st, hloop, hinv, hq⟩ := kLoop_spec hd vts.length [] (kInit vts) (kInit_inv hd) (by simp)
+  unfold getFieldOrigins
+  simp only [hloop]
+  have hkeysnd : (Map.keys st.remaining).Nodup := by rw [hinv.keys]; exact nodup_sorted_names hnd
+  cases hfu : firstUnresolved st.remaining with
+  | none =>
+    refine .inr ⟨st.origins, rfl, ?_, fun e he => (hinv.entries e he).2, ?_⟩
+    · have hall : ∀ t ∈ vts, t.name ∈ P := by
+        intro t ht
+        obtain ⟨r, hr⟩ := get?_remaining hinv ht
+        have hr0 : r = [] := (firstUnresolved_none_iff _).mp hfu _ (Map.mem_of_get? hr)
+        have := (hinv.ready t ht).mpr (by
+          intro x hx
+          apply Classical.byContradiction
+          intro hxP
+          have := (hinv.rem t ht r hr x).mpr ⟨hx, hxP⟩
+          rw [hr0] at this; simp at this)
+        simpa [hq] using this
+      intro t hc
+      obtain ⟨b, ⟨d, hd', hdn, _⟩, _⟩ := hc.head_cases
+      exact not_transGen_of_acc (hinv.acc t (hdn ▸ hall d hd')) hc
+    · intro t ht f hf
+      have hall : t.name ∈ P := by
+        obtain ⟨r, hr⟩ := get?_remaining hinv ht
+        have hr0 : r = [] := (firstUnresolved_none_iff _).mp hfu _ (Map.mem_of_get? hr)
+        have := (hinv.ready t ht).mpr (by
+          intro x hx
+          apply Classical.byContradiction
+          intro hxP
+          have := (hinv.rem t ht r hr x).mpr ⟨hx, hxP⟩
+          rw [hr0] at this; simp at this)
+        simpa [hq] using this
+      exact hinv.orig t ht hall f hf
+  | some err =>
+    refine .inl ⟨err, rfl, ?_⟩
+    -- some type is unresolved
+    have hex : ∃ e ∈ st.remaining, e.2 ≠ [] := by
+      apply Classical.byContradiction
+      intro hne
+      have : firstUnresolved st.remaining = none := (firstUnresolved_none_iff _).mpr (by
+        intro e he
+        apply Classical.byContradiction
+        intro h; exact hne ⟨e, he, h⟩)
+      rw [this] at hfu; cases hfu
+    obtain ⟨e, he, hene⟩ := hex
+    have hek : e.1 ∈ (sortByName vts).map (·.name) := by
+      rw [← hinv.keys]; exact List.mem_map.mpr ⟨e, he, rfl⟩
+    obtain ⟨t0, ht0, ht0n⟩ := List.mem_map.mp hek
+    have ht0' : t0 ∈ vts := (mem_sortByName _ _).mp ht0
+    have hget : Map.get? t0.name st.remaining = some e.2 := by
+      rw [ht0n]; exact Map.get?_of_mem_nodupKeys hkeysnd he
+    -- the unprocessed types
+    let U := (vts.map (·.name)).filter (fun n => !P.contains n)
+    have hmemU : ∀ n, n ∈ U ↔ IsVertex vts n ∧ n ∉ P := by
+      intro n
+      simp only [U, List.mem_filter, List.mem_map, Bool.not_eq_true', List.contains_eq_mem,
+        decide_eq_false_iff_not, IsVertex]
+    have hsucc : ∀ u ∈ U, ∃ x ∈ U, ImplStep vts u x := by
+      intro u hu
+      obtain ⟨⟨t, ht, htn⟩, hnP⟩ := (hmemU u).mp hu
+      subst htn
+      have hnot : ¬ ∀ x ∈ resolutionsOf vts t, x ∈ P := by
+        intro hall
+        have := (hinv.ready t ht).mpr hall
+        rw [hq] at this; simp at this; exact hnP this
+      have hex : ∃ x ∈ resolutionsOf vts t, x ∉ P := by
+        apply Classical.byContradiction
+        intro hne
+        apply hnot
+        intro x hx
+        apply Classical.byContradiction
+        intro hxP; exact hne ⟨x, hx, hxP⟩
+      obtain ⟨x, hx, hxP⟩ := hex
+      exact ⟨x, (hmemU x).mpr ⟨((mem_resolutionsOf _ _ _).mp hx).2, hxP⟩, (implStep_iff hnd ht x).mpr hx⟩
+    have hne : U ≠ [] := by
+      cases hr : e.2 with
+      | nil => exact absurd hr hene
+      | cons x xs =>
+        have hx := (hinv.rem t0 ht0' e.2 hget x).mp (by rw [hr]; simp)
+        exact List.ne_nil_of_mem ((hmemU x).mpr ⟨((mem_resolutionsOf _ _ _).mp hx.1).2, hx.2⟩)
+    exact exists_cycle U.length (ImplStep vts) U (Nat.le_refl _) hne hsucc
+
+
+/-! ### `check_ambiguous_field_origins` -/
+
+theorem OriginOf.hasField {vts : List TypeDef} {t f a : Name} (h : OriginOf vts t f a) : HasField vts t f := by
+  cases h with
+  | self h _ => exact h
+  | inherited h _ _ _ => exact h
+
+/-- "No ambiguous field origins", stated with `OriginOf`. -/
+def UnambiguousRule (vts : List TypeDef) : Prop :=
+  ∀ t ∈ vts, ∀ f ∈ t.fields, ∀ a b, OriginOf vts t.name f.name a → OriginOf vts t.name f.name b → a = b
+
+theorem checkAmbiguous_spec {vts : List TypeDef} (hd : Distinct vts) {origins : Origins}
+    (hent : ∀ e ∈ origins, OriginSpec vts e.2 e.1.1 e.1.2)
+    (hall : ∀ t ∈ vts, ∀ f ∈ t.fields, ∃ o, Map.get? (t.name, f.name) origins = some o ∧
+      OriginSpec vts o t.name f.name) :
+    ∃ es, checkAmbiguous vts origins = .ok es ∧ (es = [] ↔ UnambiguousRule vts) := by
+  have hnd := hd.1
+  obtain ⟨es, h1, h2⟩ := collect_spec (f := checkAmbiguousOne vts)
+    (P := fun e => ∀ s, e.2 ≠ Origin.multiple s) origins (by
+      intro e he
+      unfold checkAmbiguousOne
+      cases ho : e.2 with
+      | single n => exact ⟨[], rfl, by simp⟩
+      | multiple s =>
+        have hspec := hent e he
+        rw [ho] at hspec
+        obtain ⟨a, ha, _⟩ := hspec.1
+        have hof := (hspec.2 a).mp ha
+        obtain ⟨d, hd', hdn, x, hx, hxn⟩ := hof.hasField
+        have hl : lookupField vts e.1.1 e.1.2 = some x := by
+          rw [← hdn, lookupField_of_mem hnd hd', ← hxn]
+          exact findField_of_mem (hd.2 d hd') hx
+        simp only [hl]
+        exact ⟨_, rfl, by simp⟩)
+  refine ⟨es, h1, h2.trans ?_⟩
+  constructor
+  · intro hs t ht f hf a b ha hb
+    obtain ⟨o, ho, hspec⟩ := hall t ht f hf
+    have := hs _ (Map.mem_of_get? ho)
+    cases o with
+    | multiple s => exact absurd rfl (this s)
+    | single n =>
+      have ha' := (hspec.2 a).mpr ha
+      have hb' := (hspec.2 b).mpr hb
+      simp only [Origin.toList, List.mem_singleton] at ha' hb'
+      rw [ha', hb']
+  · intro hrule e he s hs
+    have hspec := hent e he
+    rw [hs] at hspec
+    obtain ⟨a, ha, b, hb, hab⟩ := hspec.1
+    have hoa := (hspec.2 a).mp ha
+    have hob := (hspec.2 b).mp hb
+    obtain ⟨d, hd', hdn, x, hx, hxn⟩ := hoa.hasField
+    rw [← hdn, ← hxn] at hoa hob
+    exact hab (hrule d hd' x hx a b hoa hob)
+
+/-! ### The six checks together -/
+
+def AcyclicRule (vts : List TypeDef) : Prop := ∀ t, ¬ TransGen (ImplStep vts) t t
+
+/-- `runChecks` does not panic on clean definitions, and reports no error iff every rule holds. -/
+theorem runChecks_spec {vts : List TypeDef} (hd : Distinct vts) (hc : FieldsClean vts)
+    {q : TypeDef} (hq : q ∈ vts) :
+    ∃ errors origins, runChecks vts q = .ok (errors, origins) ∧
+      (errors = [] → origins.isSome = true) ∧
+      (errors = [] ↔ (TransitiveRule vts ∧ NarrowingRule vts ∧ RequiredFieldsRule vts ∧
+        InvariantsRule vts q.name ∧ RootRule q ∧ AcyclicRule vts ∧ UnambiguousRule vts)) := by
+  have hshallow : ∀ t ∈ vts, ∀ f ∈ t.fields, ArgsShallow f := by
+    intro t ht f hf a ha
+    have := hc t ht f hf
+    simp only [Field.clean, Bool.and_eq_true, List.all_eq_true] at this
+    have := this.2 a ha
+    simp only [Arg.clean, Bool.and_eq_true] at this
+    exact this.1
+  obtain ⟨e2, h2, h2'⟩ := checkNarrowing_spec hd.1 hshallow
+  obtain ⟨e4, h4, h4'⟩ := checkInvariants_spec vts q.name hc
+  obtain ⟨e5, h5, h5'⟩ := checkRoot_spec q (hc q hq)
+  have h1' := checkTransitive_nil_iff vts
+  have h3' := checkRequiredFields_nil_iff vts
+  unfold runChecks
+  simp only [h2, h4, h5]
+  rcases getFieldOrigins_spec hd with ⟨e, hg, hcyc⟩ | ⟨origins, hg, hacyc, hent, hall⟩
+  · simp only [hg]
+    refine ⟨_, _, rfl, by simp, ?_⟩
+    constructor
+    · intro h; simp at h
+    · rintro ⟨_, _, _, _, _, hac, _⟩
+      obtain ⟨t, ht⟩ := hcyc
+      exact absurd ht (hac t)
+  · simp only [hg]
+    obtain ⟨e6, h6, h6'⟩ := checkAmbiguous_spec hd hent hall
+    simp only [h6]
+    refine ⟨_, _, rfl, by simp, ?_⟩
+    simp only [List.append_eq_nil_iff, h1', h2', h3', h4', h5', h6']
+    constructor
+    · rintro ⟨⟨⟨⟨⟨a, b⟩, c⟩, d⟩, e⟩, f⟩; exact ⟨a, b, c, d, e, hacyc, f⟩
+    · rintro ⟨a, b, c, d, e, _, f⟩; exact ⟨⟨⟨⟨⟨a, b⟩, c⟩, d⟩, e⟩, f⟩
+
+
+/-! ### From the look-up rules to `ValidSchema` -/
+
+/-- All rules decided by the six checks, for the definitions `ts` with root type `qd`. -/
+def CheckedRules (ts : List TypeDef) (qd : TypeDef) : Prop :=
+  TransitiveRule ts ∧ NarrowingRule ts ∧ RequiredFieldsRule ts ∧ InvariantsRule ts qd.name ∧
+    RootRule qd ∧ AcyclicRule ts ∧ UnambiguousRule ts
+
+theorem lookupField_eq_some_iff {ts : List TypeDef} (hd : Distinct ts) {i f : Name} {pf : Field} :
+    lookupField ts i f = some pf ↔ ∃ d ∈ ts, d.name = i ∧ pf ∈ d.fields ∧ pf.name = f := by
+  unfold lookupField
+  constructor
+  · intro h
+    cases hft : findType ts i with
+    | none => simp [hft] at h
+    | some d =>
+      simp only [hft] at h
+      exact ⟨d, (findType_some hft).1, (findType_some hft).2, findField_some h⟩
+  · rintro ⟨d, hd', rfl, hpf, rfl⟩
+    rw [findType_of_mem hd.1 hd']
+    exact findField_of_mem (hd.2 d hd') hpf
+
+theorem validSchema_of_rules {doc : Doc} {q : Name} {qd : TypeDef} (hblocks : doc.schemaBlocks = [q])
+    (hq : findType doc.types q = some qd) (hqi : qd.isInterface = false) (hqb : isBuiltin q = false)
+    (hd : Distinct doc.types) (hr : CheckedRules doc.types qd) : ValidSchema doc := by
+  obtain ⟨hT, hN, hR, hI, hRoot, hA, hU⟩ := hr
+  have hqd := findType_some hq
+  have hnd := hd.1
+  refine
+    { queryType := ⟨q, hblocks, qd, hqd.1, hqd.2, hqi⟩
+      typesDistinct := hd.1
+      fieldsDistinct := hd.2
+      implementsInterfaces := ?_
+      implementsTransitive := ?_
+      inheritedPresent := ?_
+      inheritedNarrowed := ?_
+      fieldTypesKnown := ?_
+      noReservedNames := ?_
+      noEdgeIntoRoot := ?_
+      propertiesNoParams := ?_
+      defaultsFit := ?_
+      edgesNotNested := ?_
+      rootFieldsAreEdges := ?_
+      acyclic := hA
+      unambiguousOrigins := hU }
+  · intro t ht i hi
+    obtain ⟨d, hfd, hdi, _⟩ := hT t ht i hi
+    exact ⟨d, (findType_some hfd).1, (findType_some hfd).2, hdi⟩
+  · intro t ht i hi d hd' hdn j hj
+    obtain ⟨d', hfd, _, hall⟩ := hT t ht i hi
+    have : d' = d := by
+      have := findType_of_mem hnd hd'; rw [hdn, hfd] at this; exact Option.some.inj this
+    subst this
+    rcases hall j hj with hjt | hjt
+    · exfalso
+      subst hjt
+      apply hA t.name
+      exact .tail (.single ⟨t, ht, rfl, hi, d', hd', hdn⟩) ⟨d', hd', hdn, hj, t, ht, rfl⟩
+    · exact hjt
+  · intro t ht i hi d hd' hdn pf hpf
+    have hfd : findType doc.types i = some d := by rw [← hdn]; exact findType_of_mem hnd hd'
+    have := hR t ht i hi d hfd pf hpf
+    rw [lookupField_of_mem hnd ht, findField_isSome_iff] at this
+    exact this
+  · intro t ht f hf i hi d hd' hdn pf hpf hpfn
+    exact hN t ht f hf i hi pf ((lookupField_eq_some_iff hd).mpr ⟨d, hd', hdn, hpf, hpfn⟩)
+  · intro t ht f hf
+    have := ((hI t ht).2 f hf).2
+    by_cases hb : isBuiltin f.ty.base = true
+    · exact .inl hb
+    · simp only [hb, if_false] at this
+      exact .inr ((findType_isSome_iff _ _).mp this.1)
+  · intro t ht
+    exact ⟨(hI t ht).1, fun f hf => ((hI t ht).2 f hf).1⟩
+  · intro t ht f hf q' hq'
+    rw [hblocks] at hq'; simp at hq'; subst hq'
+    have := ((hI t ht).2 f hf).2
+    by_cases hb : isBuiltin f.ty.base = true
+    · intro heq; rw [heq, hqb] at hb; cases hb
+    · simp only [hb, if_false] at this
+      rw [← hqd.2]; exact this.2.1
+  · intro t ht f hf hb
+    have := ((hI t ht).2 f hf).2
+    simpa [hb] using this
+  · intro t ht f hf hb a ha
+    have := ((hI t ht).2 f hf).2
+    simp only [hb, Bool.false_eq_true, if_false] at this
+    exact this.2.2.1 a ha
+  · intro t ht f hf hb
+    have := ((hI t ht).2 f hf).2
+    simp only [hb, Bool.false_eq_true, if_false] at this
+    exact this.2.2.2
+  · intro t ht htq f hf
+    rw [hblocks] at htq; simp at htq
+    have : t = qd := eq_of_name_eq hnd ht hqd.1 (by rw [htq, hqd.2])
+    subst this
+    exact hRoot f hf
+
+theorem rules_of_validSchema {doc : Doc} {q : Name} {qd : TypeDef} (hblocks : doc.schemaBlocks = [q])
+    (hq : findType doc.types q = some qd) (hv : ValidSchema doc) :
+    Distinct doc.types ∧ CheckedRules doc.types qd := by
+  have hd : Distinct doc.types := ⟨hv.typesDistinct, hv.fieldsDistinct⟩
+  have hnd := hd.1
+  have hqd := findType_some hq
+  refine ⟨hd, ?_, ?_, ?_, ?_, ?_, hv.acyclic, hv.unambiguousOrigins⟩
+  · intro t ht i hi
+    obtain ⟨d, hd', hdn, hdi⟩ := hv.implementsInterfaces t ht i hi
+    refine ⟨d, by rw [← hdn]; exact findType_of_mem hnd hd', hdi, ?_⟩
+    intro e he
+    exact .inr (hv.implementsTransitive t ht i hi d hd' hdn e he)
+  · intro t ht f hf i hi pf hl
+    obtain ⟨d, hd', hdn, hpf, hpfn⟩ := (lookupField_eq_some_iff hd).mp hl
+    exact hv.inheritedNarrowed t ht f hf i hi d hd' hdn pf hpf hpfn
+  · intro t ht i hi d hfd pf hpf
+    rw [lookupField_of_mem hnd ht, findField_isSome_iff]
+    exact hv.inheritedPresent t ht i hi d (findType_some hfd).1 (findType_some hfd).2 pf hpf
+  · intro t ht
+    refine ⟨(hv.noReservedNames t ht).1, ?_⟩
+    intro f hf
+    refine ⟨(hv.noReservedNames t ht).2 f hf, ?_⟩
+    by_cases hb : isBuiltin f.ty.base = true
+    · simp only [hb, if_true]; exact hv.propertiesNoParams t ht f hf hb
+    · simp only [hb, if_false]
+      have hb' : isBuiltin f.ty.base = false := by simpa using hb
+      refine ⟨?_, ?_, hv.defaultsFit t ht f hf hb', hv.edgesNotNested t ht f hf hb'⟩
+      · rcases hv.fieldTypesKnown t ht f hf with h | h
+        · exact absurd h hb
+        · exact (findType_isSome_iff _ _).mpr h
+      · rw [hqd.2]; exact hv.noEdgeIntoRoot t ht f hf q (by simp [hblocks])
+  · intro f hf
+    exact hv.rootFieldsAreEdges qd hqd.1 (by simp [hblocks, hqd.2]) f hf
+
+
 end TF.SchemaDoc
